@@ -52,8 +52,9 @@ var props = map[string]propCfg{
 			{Name: "purity", Quick: 4000, Thorough: 300000, Batch: 200},
 			{Name: "scan", Quick: 1500, Thorough: 100000, Batch: 100},
 			{Name: "filter", Quick: 1200, Thorough: 80000, Batch: 100},
+			{Name: "loop", Quick: 1000, Thorough: 60000, Batch: 100},
 		},
-		Rule: "filter: whole simulated filter processes on a list and on a seeded sub-list (output of the sub-list must be the full output restricted to it), order compared with rank keys computed from accurate match offsets. purity: one evaluation = a seeded sequence of MatchItem calls (items in seeded order on seeded workers) on scratch slabs with adversarial stale contents, each compared with an isolated evaluation (fresh item, nil slab); " +
+		Rule: "loop: as for C13 (what one search leaves in the chunk cache must not show in the next: same queries repeated with the sort flag flipping). filter: whole simulated filter processes on a list and on a seeded sub-list (output of the sub-list must be the full output restricted to it), order compared with rank keys computed from accurate match offsets. purity: one evaluation = a seeded sequence of MatchItem calls (items in seeded order on seeded workers) on scratch slabs with adversarial stale contents, each compared with an isolated evaluation (fresh item, nil slab); " +
 			"scan: partitioned scans with pre-poisoned per-partition slabs, rank keys compared per item; non-trivial = at least one item matched; distinct = distinct outcome signature / event-log hash",
 		RealStub: map[string][]string{
 			"real": {"Pattern.MatchItem", "algo.* matchers", "util.Slab", "Matcher.scan", "buildResult"},
